@@ -38,7 +38,7 @@ class SweepFaults(Monitor):
                 self.locker.execute("BEGIN EXCLUSIVE")
 
     def hook(self, world, dbconn, sql):
-        if self.armed and dbconn.v_path == world.channel_path:
+        if self.armed:      # the first statement of the sweep, on whichever of the server's databases it touches first
             self.armed = False
             self.acc.ev["c13_injected_sweep_failure"] += 1
             raise sqlite3.OperationalError("database is locked")
@@ -74,6 +74,7 @@ def jobs(pid, tier, seed):
     # work the server postpones to a later reactor turn runs one command late; afterwards everybody leaves and the
     # store must still return to empty (histories of the C08 profile: many closes next to adds of the other side)
     out += [{"kind": "lazy", "seed": seed * 1000003 + 800000 + i} for i in range(300 if tier == "quick" else 6000)]
+    out += [{"kind": "bulk_sweep", "n": n, "usage": u} for n in (1200,) for u in (0, 1)]
     return out
 
 
@@ -132,6 +133,46 @@ def run_crash_images(acc, seed):
         rmtree(root)
 
 
+def run_bulk_sweep(pid, job, acc):
+    """More than a thousand channels of one app (and some of another) go idle together: the first sweep after the
+    expiration time deletes every one of them; one period later the store is empty."""
+    from ..engine import World, new_workdir, rmtree
+    cfg = Config(usage=bool(job["usage"]))
+    wd = new_workdir("bulks")
+    w = World(wd, cfg, seed=job["n"], dump_every_step=False)
+    case = "bulk_sweep:%s" % sorted(job.items())
+    try:
+        w.start()
+        for i in range(job["n"]):
+            c = w.connect()
+            app = "app" if i % 40 else "app2"
+            w.send(c.name, {"type": "bind", "appid": app, "side": "s%d" % (i % 2)})
+            if i % 2:
+                w.send(c.name, {"type": "claim", "nameplate": "n%d" % i})
+                w.send(c.name, {"type": "open", "mailbox": "mb%d" % i} if i % 4 == 1 else {"type": "list"})
+            else:
+                w.send(c.name, {"type": "open", "mailbox": "mb%d" % i})
+                w.send(c.name, {"type": "add", "phase": "p", "body": "b%d" % i})
+            w.drop(c.name)
+        before = {t: len(r) for t, r in w.dump().items()}
+        w.advance(EXPIRY + PERIOD + 1)
+        left = {t: len(r) for t, r in w.dump().items() if r}
+        acc.cases += 1
+        acc.ev["c13_bulk_sweep"] += 1
+        acc.ev["c13_empty_at_quiescence"] += 1
+        acc.distinct.add(case)
+        acc.steps += w.counters["steps"]
+        if before.get("mailboxes", 0) < job["n"] * 0.9:
+            acc.errors.append("bulk_sweep: only %r stored before the sweep" % before)
+        if left:
+            acc.add_violation({"property": pid, "kind": "bulk_sweep", "case": case, "job": job,
+                               "violation": {"props": ["C13"], "kind": "idle channels left after expiry plus one period (many channels at once)",
+                                             "detail": {"before": before, "left": left}, "step": None}})
+    finally:
+        w.close()
+        rmtree(wd)
+
+
 def run_job(pid, job, acc):
     k = job["kind"]
     if k == "directed":
@@ -143,6 +184,8 @@ def run_job(pid, job, acc):
     if k == "lazy":
         from .histcheck import run_lazy
         return run_lazy(pid, job, acc)
+    if k == "bulk_sweep":
+        return run_bulk_sweep(pid, job, acc)
     s = job["seed"]
     hist = generate(s, **GEN)
     cfg = cfg_for(s)
@@ -166,6 +209,10 @@ def run_job(pid, job, acc):
 
 
 def replay(pid, rep):
+    if rep.get("kind") == "bulk_sweep":
+        acc = Acc(pid)
+        run_bulk_sweep(pid, rep["job"], acc)
+        return acc
     if rep.get("kind") == "lazy":
         acc = Acc(pid)
         from .histcheck import run_lazy
